@@ -56,6 +56,11 @@ CHECKS = {
    note='Reply texts differ by recipient position parity so grouping is observable; the CRLF in front of a MIME boundary belongs to the boundary.',
    technique='stateless deviation-bounded model checking of the real queue with a reference bounce-grouping oracle',
    design='5/C13'),
+ 'C15': dict(level='model_checking', engine='E1-vloop',
+   text='BFS over histories of mutating storage operations on two 3-recipient messages (write, set_timestamp x2 values, increment_attempts, set_recipients_delivered once per message with 4 index lists, remove; depth 4 after the writes in quick, 5 in thorough) executed on each real backend (dict, disk on in-memory FS with 64-byte chunks, redis on fake client, cloud on fake object store); a state is the history replayed on a fresh backend, merged on the content of a dict-based reference store; after every operation the backend is observed completely (get of both ids, load, get of removed ids) and compared with the reference.  Thorough adds every pair of operations on different ids overlapping in time (disk: each aio completion an event; redis/cloud: each command), interleavings with <= 3 deviations, compared with the sequential run.',
+   note='Fake redis/object store; ids compared after ASCII decoding; get of a removed id may raise any exception; single marking round per message (multi-round is C03).',
+   technique='explicit-state BFS over operation histories on the real backends against a reference store, plus bounded interleaving exploration of overlapping operations',
+   design='5/C15'),
  'C16': dict(level='exploration', engine='E1-vloop',
    text='Every recipient list of length 0..4 over 6-7 addresses (duplicates, mixed-case, missing/empty domains) x every chain (order and repetition) of <= 2 (quick) / <= 3 (thorough) policies out of 11 (both splits, 4 forwarding rule sets, 3 header policies, a policy returning its input, a policy returning input + copy) x Date/Message-Id present/absent, through the real Queue.enqueue on a recording storage; oracle: independent reference model of the policies (recipient multiset and grouping), same sender/body/original headers, aliasing probe on the written objects, Date/Message-Id/Received rules.',
    note='Grouping is judged by the documented policy definitions; text of added headers and order of written envelopes are not judged; collapse of an original duplicate would be tolerated (never observed).',
